@@ -27,6 +27,8 @@ DIRECT_BY_SUITE = {
     ("argonsched", "argon2key"): ("differs-from-sequential", "the key computed by the concurrent lanes differs from the sequential evaluation (C09.key_schedule_independent)"),
     ("salt", "newhash"): ("salt", "the generated hash is not the specified function of the entropy delivered by crypto/rand (salt symbols / bytes consumed)"),
 }
+# suites whose operations the driver answers without any state carried between lines
+STATELESS_SUITES = {"scheme", "classify", "kdf", "guards", "xcrypt", "argon", "argonsched", "salt", "purity", "parse", "b64"}
 DIRECT_OPS = {"respell": "not-a-respelling", "secretsafe": "secret-dependent-flow", "accepts": "bounds", "sliceeffects": "slice-effect"}
 
 
@@ -206,6 +208,66 @@ def lean_audit(pid, log):
     return res
 
 
+# per-scheme suites run as one harness process per scheme (the entropy script swaps the process-global
+# crypto/rand.Reader, so schemes cannot share a process concurrently); outputs are merged in shard order
+SHARDED_SUITES = {"scheme", "classify", "kdf", "guards"}
+NSHARDS = 10
+
+
+def run_sharded(cmd, env, workdir, suite):
+    t1 = time.time()
+    procs = []
+    for i in range(NSHARDS):
+        sd = os.path.join(workdir, "shard%d" % i)
+        shutil.rmtree(sd, ignore_errors=True)
+        os.makedirs(sd)
+        c = list(cmd)
+        c[c.index("-out") + 1] = sd
+        c += ["-shard", "%d/%d" % (i, NSHARDS)]
+        lf = open(os.path.join(sd, "stdout"), "wb")
+        procs.append((subprocess.Popen(c, env=env, stdout=lf, stderr=subprocess.STDOUT), lf, sd))
+    rc, outp = 0, ""
+    metas = []
+    for pr, lf, sd in procs:
+        try:
+            prc = pr.wait(timeout=7200)
+        except subprocess.TimeoutExpired:
+            pr.kill()
+            prc = 124
+        lf.close()
+        if prc != 0:
+            rc = rc or prc
+            outp += open(os.path.join(sd, "stdout"), errors="replace").read()[-2000:]
+    if rc == 0:
+        for ext in (".ops", ".go"):
+            with open(os.path.join(workdir, suite + ext), "wb") as out:
+                for _, _, sd in procs:
+                    out.write(open(os.path.join(sd, suite + ext), "rb").read())
+        merged = None
+        for _, _, sd in procs:
+            m = json.load(open(os.path.join(sd, suite + ".json")))
+            if merged is None:
+                merged = m
+                merged["propfails"] = m.get("propfails") or []
+                merged["samples"] = m.get("samples") or []
+                merged["extra"] = m.get("extra") or {}
+                continue
+            merged["ops"] += m["ops"]
+            merged["direct"] = merged.get("direct", 0) + m.get("direct", 0)
+            merged["distinct_nontrivial"] += m["distinct_nontrivial"]
+            for k, v in (m.get("stats") or {}).items():
+                merged["stats"][k] = merged["stats"].get(k, 0) + v
+            merged["propfails"] += m.get("propfails") or []
+            merged["samples"] += (m.get("samples") or [])[:3]
+            for k, v in (m.get("extra") or {}).items():
+                merged["extra"].setdefault(k, v)
+        merged["extra"]["shards"] = NSHARDS
+        json.dump(merged, open(os.path.join(workdir, suite + ".json"), "w"))
+    for _, _, sd in procs:
+        shutil.rmtree(sd, ignore_errors=True)
+    return rc, outp, time.time() - t1
+
+
 def run_suite(pid, suite, tier, seed, workdir, log, replay=None):
     flavor, suite = split_suite(suite)
     if flavor:
@@ -226,7 +288,10 @@ def run_suite(pid, suite, tier, seed, workdir, log, replay=None):
         for f in glob.glob(racelog + ".*"):
             os.remove(f)
         env["GORACE"] = "halt_on_error=0 exitcode=0 log_path=" + racelog
-    rc, outp, dt = sh(cmd, env=env, timeout=7200)
+    if suite in SHARDED_SUITES and not race:
+        rc, outp, dt = run_sharded(cmd, env, workdir, suite)
+    else:
+        rc, outp, dt = sh(cmd, env=env, timeout=7200)
     log.append("harness %s: %.1fs rc=%d" % (suite, dt, rc))
     r = {"suite": label, "ops": 0, "mismatches": [], "propfails": [], "stats": {}, "samples": [], "distinct": 0, "extra": {},
          "harness_rc": rc, "harness_out": outp[-2000:]}
@@ -249,8 +314,44 @@ def run_suite(pid, suite, tier, seed, workdir, log, replay=None):
                                    "input": {"suite": label, "report": b.strip()[:3000]}})
     opsf = os.path.join(workdir, suite + ".ops")
     if meta["ops"] > 0:
-        with open(opsf, "rb") as fin, open(os.path.join(workdir, suite + ".lean"), "wb") as fout:
-            rc, _, dt = sh([os.path.join(LEAN, ".lake", "build", "bin", "driver")], stdin=fin, stdout=fout, timeout=7200)
+        drv = os.path.join(LEAN, ".lake", "build", "bin", "driver")
+        leanf = os.path.join(workdir, suite + ".lean")
+        if suite in STATELESS_SUITES and meta["ops"] >= 400:
+            # every line of these suites is answered independently of the others: split the operation file
+            # into contiguous chunks, answer them in parallel, concatenate the answers in order
+            t1 = time.time()
+            lines = open(opsf, "rb").read().splitlines(keepends=True)
+            k = min(14, max(1, len(lines) // 100))
+            procs = []
+            for i in range(k):
+                cf = os.path.join(workdir, "%s.ops.%d" % (suite, i))
+                with open(cf, "wb") as fh:
+                    fh.writelines(lines[i::k])      # round-robin: expensive operations cluster by scheme
+                fin = open(cf, "rb")
+                fout = open(cf + ".lean", "wb")
+                procs.append((subprocess.Popen([drv], stdin=fin, stdout=fout), fin, fout, cf))
+            rc = 0
+            answers = []
+            for pr, fin, fout, cf in procs:
+                try:
+                    prc = pr.wait(timeout=7200)
+                except subprocess.TimeoutExpired:
+                    pr.kill()
+                    prc = 124
+                fin.close()
+                fout.close()
+                rc = rc or prc
+                answers.append(open(cf + ".lean", "rb").read().splitlines(keepends=True))
+                os.remove(cf)
+                os.remove(cf + ".lean")
+            with open(leanf, "wb") as out:
+                for j in range(len(lines)):
+                    a = answers[j % k]
+                    out.write(a[j // k] if j // k < len(a) else b"<no answer>\n")
+            dt = time.time() - t1
+        else:
+            with open(opsf, "rb") as fin, open(leanf, "wb") as fout:
+                rc, _, dt = sh([drv], stdin=fin, stdout=fout, timeout=7200)
         log.append("driver %s: %.1fs rc=%d" % (suite, dt, rc))
         r["driver_rc"] = rc
         n = 0
@@ -462,6 +563,9 @@ def main(argv):
         print("KNOWN-FINDING: property=%s %s" % (pid, k.get("what", "")))
 
     if not problems and not new_fails:
+        stale = os.path.join(workdir, "replay.json")
+        if os.path.exists(stale):
+            os.remove(stale)
         print("OK property=%s tier=%s obligations=%d/%d evaluations=%d wall=%.1fs" % (
             pid, tier, audit["discharged"], audit["obligations"], evaluations, time.time() - t0))
         return 0
